@@ -21,7 +21,8 @@ From SK Require Import lib.Tok lib.LGraph model.C03_Model proof.C03_Spec proof.C
                        proof.C03_Link proof.C03_Default proof.C03_Iso
                        proof.C03_Skeleton proof.C03_StripCounts
                        proof.C03_Wiring proof.C03_WiringCount proof.C03_PairIds proof.C03_StripExact proof.C03_StripCor
-                       proof.C03_PairIdsComplete proof.C03_Wrap proof.C03_DefaultBalance.
+                       proof.C03_PairIdsComplete proof.C03_Wrap proof.C03_DefaultBalance
+                       proof.C03_DefaultEnd.
 Import ListNotations.
 Local Open Scope Z_scope.
 
@@ -315,6 +316,7 @@ Theorem C03_default_rule_dH : forall (tpl rc : its) (l r : molg),
   nodupb (node_ids tpl) = true -> (forall (k : N) (a : inode), In (k, a) (gnodes tpl) -> a_el (iH a) = a_el (iG a)) ->
   simple_edgesb (gedges tpl) = true -> synrule tpl true = Some (rc, l, r) ->
   exists R K : list N,
+    NoDup R /\ NoDup K /\
     (forall h : N, In h R <-> is_H_i tpl h = true /\ heavy_nbr (side0 iG eG tpl) h = true /\ heavy_nbr (side0 iH eH tpl) h = true) /\
     (forall k : N, In k K <-> In k (node_ids tpl) /\ is_H_i tpl k = false) /\
     sumZ dH rc = fold_right (fun h acc => (countZ (fun k => bonded eH tpl k h) K - countZ (fun k => bonded eG tpl k h) K) + acc) 0 R.
@@ -325,11 +327,51 @@ Theorem C03_default_rule_H_balanced : forall (tpl rc : its) (l r : molg),
   nodupb (node_ids tpl) = true -> (forall (k : N) (a : inode), In (k, a) (gnodes tpl) -> a_el (iH a) = a_el (iG a)) ->
   simple_edgesb (gedges tpl) = true -> synrule tpl true = Some (rc, l, r) ->
   exists R K : list N,
+    NoDup R /\ NoDup K /\
     (forall h : N, In h R <-> is_H_i tpl h = true /\ heavy_nbr (side0 iG eG tpl) h = true /\ heavy_nbr (side0 iH eH tpl) h = true) /\
     (forall k : N, In k K <-> In k (node_ids tpl) /\ is_H_i tpl k = false) /\
     ((forall h : N, In h R -> countZ (fun k => bonded eH tpl k h) K = countZ (fun k => bonded eG tpl k h) K) -> sumZ dH rc = 0).
 Proof. exact default_rule_H_balanced. Qed.
 Print Assumptions C03_default_rule_H_balanced.
+
+(** ... the charge change of the prepared rule is the template's over the kept atoms ... *)
+Theorem C03_default_rule_dQ : forall (tpl rc : its) (l r : molg),
+  nodupb (node_ids tpl) = true -> (forall (k : N) (a : inode), In (k, a) (gnodes tpl) -> a_el (iH a) = a_el (iG a)) ->
+  synrule tpl true = Some (rc, l, r) ->
+  exists R : list N,
+    (forall h : N, In h R <-> is_H_i tpl h = true /\ heavy_nbr (side0 iG eG tpl) h = true /\ heavy_nbr (side0 iH eH tpl) h = true) /\
+    sumZ dQ rc = sumL dQ (filter (keepn R) (gnodes tpl)).
+Proof. exact default_rule_dQ. Qed.
+Print Assumptions C03_default_rule_dQ.
+
+(** ... so clause (b) END TO END in the default mode, from a condition on the TEMPLATE alone ([tpl_condition],
+    proof/C03_Spec.v: every removed hydrogen keeps its number of bonds to the kept heavy atoms, the kept atoms keep the
+    total charge): every reaction proposed through glue + _explicit_h (direct route) or expand + glue + _explicit_h
+    conserves every element count including hydrogen and the charge, and has the substrate's composition and bonds *)
+Theorem C03_default_end_to_end_direct : forall (tpl rc : its) (l r : molg) (host : hostg) (m : mapping) (T T' : its) (ms : list (N * N)),
+  nodupb (node_ids tpl) = true -> (forall (k : N) (a : inode), In (k, a) (gnodes tpl) -> a_el (iH a) = a_el (iG a)) ->
+  simple_edgesb (gedges tpl) = true -> synrule tpl true = Some (rc, l, r) -> tpl_condition tpl ->
+  wf_hostb host = true -> wf_rcb rc = true -> match_rcb host rc m = true -> glue host rc m = Some T ->
+  explicit_h T = Some (T', ms) ->
+  (forall e : N, elem_count e (fst (its_decompose T')) = elem_count e (snd (its_decompose T'))) /\
+  total_charge (fst (its_decompose T')) = total_charge (snd (its_decompose T')) /\
+  (forall e : N, elem_count e (fst (its_decompose T')) = elem_count e (mol_of_host host)) /\
+  (forall a b : N, In a (node_ids host) -> In b (node_ids host) -> bondG T' a b = adj host a b).
+Proof. exact default_end_to_end_direct. Qed.
+Print Assumptions C03_default_end_to_end_direct.
+
+Theorem C03_default_end_to_end_expanded : forall (tpl rc : its) (l r : molg) (host : hostg) (nodes : list N) (m : mapping) (T T' : its) (ms : list (N * N)),
+  nodupb (node_ids tpl) = true -> (forall (k : N) (a : inode), In (k, a) (gnodes tpl) -> a_el (iH a) = a_el (iG a)) ->
+  simple_edgesb (gedges tpl) = true -> synrule tpl true = Some (rc, l, r) -> tpl_condition tpl ->
+  wf_hostb host = true -> wf_hostb (h_to_explicit host nodes) = true -> wf_rcb rc = true ->
+  match_rcb (h_to_explicit host nodes) rc m = true -> glue (h_to_explicit host nodes) rc m = Some T ->
+  explicit_h T = Some (T', ms) ->
+  (forall e : N, elem_count e (fst (its_decompose T')) = elem_count e (snd (its_decompose T'))) /\
+  total_charge (fst (its_decompose T')) = total_charge (snd (its_decompose T')) /\
+  (forall e : N, elem_count e (fst (its_decompose T')) = elem_count e (mol_of_host host)) /\
+  (forall a b : N, In a (node_ids host) -> In b (node_ids host) -> bondG T' a b = adj host a b).
+Proof. exact default_end_to_end_expanded. Qed.
+Print Assumptions C03_default_end_to_end_expanded.
 
 (** ... and therefore, in default mode, the changed bonds of every proposed ITS (before _explicit_h re-materialises the
     migrating hydrogens) are exactly the images of the template's changed bonds that touch no stripped hydrogen *)
